@@ -207,7 +207,7 @@ func checkMatchDispatch(r *Run, prog *Program, a *Anchors, pfx string) {
 							problems = append(problems, "different paths of one arm consult different matchers/arguments")
 						}
 						info.callee, info.args = ev.Callee.Name(), strings.Join(as, ",")
-						if len(ev.Args) < 1 || ev.Args[0].Key() != pExpr.Key() {
+						if ge, _ := matcherCallOperands(sm.St, &ev); ge == nil || ge.Key() != pExpr.Key() {
 							problems = append(problems, "the matcher is not given this expression but "+info.args)
 						}
 						want := sc.m
